@@ -293,6 +293,7 @@ def script_strategy():
         st.tuples(st.just("delref"), st.integers(1, NBRANCH - 1), st.sampled_from(["dulwich", "git"])),
         st.tuples(st.just("delref"), st.integers(1, NBRANCH - 1), st.sampled_from(["dulwich", "git"])),
         st.tuples(st.just("moveref"), st.integers(0, NBRANCH - 1), st.sampled_from(["dulwich", "git"])),
+        st.tuples(st.just("retag"), st.integers(0, 3), st.sampled_from(["dulwich", "git"])),
         # refs re-packed by another process while the long-lived instance holds its cache
         st.tuples(st.just("pack_refs"), st.sampled_from(["git", "git", "dulwich"])),
         st.just(("reopen",)),
